@@ -700,6 +700,10 @@ where
     #[cfg(feature = "class-c")]
     pub async fn rxc_listen(&mut self) -> Result<ListenResponse, Error<R::PhyError>> {
         let rx_config = self.mac.get_rxc_config();
+        // Do not rely on the radio still being configured for RXC: an uplink procedure that ended
+        // in a radio error leaves it with the configuration of the window it was working on, and
+        // before the first uplink it has not been configured at all.
+        self.radio.setup_rx(rx_config).await.map_err(Error::Radio)?;
         loop {
             let (sz, q) =
                 self.radio.rx_continuous(self.radio_buffer.as_mut()).await.map_err(Error::Radio)?;
